@@ -75,8 +75,8 @@ const HANDLER: u16 = 0xA000;
 fn block() -> impl Strategy<Value = Vec<u8>> {
     prop_oneof![
         4 => Just(vec![0x00u8]),
-        3 => (0u8..8, any::<u8>()).prop_filter("not (HL)", |(r, _)| *r != 6).prop_map(|(r, n)| vec![0x06 | (r << 3), n]),
-        3 => (0x80u8..=0xBF).prop_filter("no (HL)", |op| op & 7 != 6).prop_map(|op| vec![op]),
+        3 => (0u8..7, any::<u8>()).prop_map(|(r, n)| { let r = if r == 6 { 7 } else { r }; vec![0x06 | (r << 3), n] }),
+        3 => (0x80u8..=0xBF).prop_map(|op| vec![if op & 7 == 6 { op | 1 } else { op }]),
         2 => Just(vec![0xFBu8]),
         1 => Just(vec![0xF3u8, 0x00, 0xFB]),
         2 => Just(vec![0xFBu8, 0x76]),
